@@ -101,7 +101,8 @@ class C16(PropertyCheck):
             kw = dict(padded=rng.random() < 0.5, permute_bodies=rng.random() < 0.7, unaligned=rng.random() < 0.5, gaps=rng.random() < 0.4,
                       count_first=rng.random() < 0.5, extra_labels=rng.random() < 0.6, shuffle_tables=rng.random() < 0.5,
                       junk_text=rng.random() < 0.3, dup_strings=rng.random() < 0.3,
-                      tail=rng.choice([0.0, 0.0, 0.3, 1.0]), end_exact=rng.random() < 0.5, share=share)
+                      tail=rng.choice([0.0, 0.0, 0.3, 1.0]), end_exact=rng.random() < 0.5, share=share,
+                      indices=rng.choice(["seq", "seq", "zero", "dup", "random"]))
             image, exp = txtfile.arc_write(files, rng, **kw)
             cases.append(Case(render(image, exp, files), "layout-knobs"))
         if not quick:
